@@ -74,6 +74,108 @@ class FreeDom(ValueDomain):
                 return self.eval(x["e"], st)
         return ValueDomain.eval(self, n, st)
 
+    def refine(self, c, st, truth):
+        """an explicit NULL test of a pointer whose value is still its initial symbol has both outcomes: the symbol
+        stands for "whatever it held on entry", which may be NULL (aliases made by copying keep one symbol, so comparing
+        two copies stays decided)"""
+        x = strip_pre(c)
+        e, nonnull_if_true = None, None
+        if isinstance(x, dict):
+            if x.get("k") == "un" and x.get("op") == "!":
+                e, nonnull_if_true = x["e"], False
+            elif x.get("k") == "bin" and x.get("op") in ("==", "!="):
+                if const_value(x["b"]) == 0:
+                    e, nonnull_if_true = x["a"], x["op"] == "!="
+                elif const_value(x["a"]) == 0:
+                    e, nonnull_if_true = x["b"], x["op"] == "!="
+            elif x.get("k") in ("ref", "mem", "idx") or (x.get("k") == "un" and x.get("op") == "*"):
+                e, nonnull_if_true = x, True
+        if e is not None:
+            y = strip_pre(e)
+            while isinstance(y, dict) and y.get("k") == "cast":
+                y = strip_pre(y["e"])
+            key = lvalue_key(y) if isinstance(y, dict) else None
+            if key is not None and not st.has(key) and self.is_ptr(y) and "cv" not in y and self.tracked(key):
+                if truth == nonnull_if_true:
+                    return st.set(key, fin(self.sym(key)))
+                return st.set(key, ZERO)
+        return ValueDomain.refine(self, c, st, truth)
+
+    # ---- memo of branch decisions on values the domain cannot represent (rank > 0, n >= 2, flags & m) -----------
+    @staticmethod
+    def _pure(c):
+        for x in walk(c, into_pre=True):
+            k = x.get("k")
+            if k in ("call", "asg") or (k == "un" and ("++" in x.get("op", "") or "--" in x.get("op", ""))):
+                return False
+        return True
+
+    @staticmethod
+    def _norm(c):
+        """(text, flipped): `a == b`, `a <= b`, `a >= b`, `!a` are stored as the negation of `a != b`, `a > b`, `a < b`, `a`"""
+        x = strip_pre(c)
+        flip = False
+        while isinstance(x, dict) and x.get("k") == "un" and x.get("op") == "!":
+            x = strip_pre(x["e"])
+            flip = not flip
+        if isinstance(x, dict) and x.get("k") == "bin" and x.get("op") in ("==", "<=", ">="):
+            op = {"==": "!=", "<=": ">", ">=": "<"}[x["op"]]
+            return "%s %s %s" % (canon(x["a"]), op, canon(x["b"])), not flip
+        return canon(x), flip
+
+    @staticmethod
+    def _keys_of(c):
+        out = set()
+        addr = set()
+        for x in walk(c, into_pre=True):
+            if x.get("k") == "un" and x.get("op") == "&":
+                for y in walk(x["e"], into_pre=True):
+                    addr.add(id(y))         # &object is a constant: the object's value does not matter
+        for x in walk(c, into_pre=True):
+            if id(x) in addr:
+                continue
+            if x.get("k") in ("ref", "mem", "idx") or (x.get("k") == "un" and x.get("op") == "*"):
+                k = lvalue_key(x)
+                if k is not None:
+                    out.add(k)
+        return tuple(sorted(out, key=str))
+
+    MEMO = False
+
+    def branch(self, blk, st):
+        c = blk.cond
+        if not self.MEMO or c is None or len(blk.succs) != 2 or blk.term == "switch" or not self._pure(c):
+            return ValueDomain.branch(self, blk, st)
+        txt, flip = self._norm(c)
+        memo = st.get("$P", frozenset())
+        known = [t for (cc, t, ks) in memo if cc == txt]
+        edges = ValueDomain.branch(self, blk, st)
+        # remember the decision only where the value domain learnt nothing from it
+        learnt = len(edges) != 2 or any(s2 is not st and s2 != st for _, s2 in edges)
+        ks = self._keys_of(c)
+        if (learnt and not known) or not ks or any(k[0] != "v" for k in ks):
+            return edges
+        out = []
+        for succ, s2 in edges:
+            truth = (succ == blk.succs[0]) if blk.succs[0] != blk.succs[1] else None
+            if truth is None:
+                out.append((succ, s2))
+                continue
+            truth = truth != flip
+            if known and truth != known[0]:
+                continue
+            if not known:
+                s2 = s2.set("$P", memo | {(txt, truth, self._keys_of(c))})
+            out.append((succ, s2))
+        return out
+
+    def _drop_memo(self, st, key):
+        memo = st.get("$P", None)
+        if not memo:
+            return st
+        keep = frozenset(e for e in memo if not any(key_mentions(k, key) for k in e[2]))
+        return st if keep == memo else st.set("$P", keep if keep else None)
+
     def freed(self, st):
         return st.get("$F", frozenset())
 
@@ -90,10 +192,10 @@ class FreeDom(ValueDomain):
         return st if keep == F else st.set("$F", keep if keep else None)
 
     def on_assign(self, key, lhs, rhs, val, st, elem):
-        return self.forget(st, key, own=not st.has(key))
+        return self._drop_memo(self.forget(st, key, own=not st.has(key)), key)
 
     def kill(self, st, key):
-        return self.forget(ValueDomain.kill(self, st, key), key, own=True)
+        return self._drop_memo(self.forget(ValueDomain.kill(self, st, key), key, own=True), key)
 
     @staticmethod
     def the_sym(v):
